@@ -46,6 +46,11 @@ PosIn(p, x) == CHOOSE i \in 1..K : p[i] = x
 \* decoy "conv": an undeclared member with the CONVENTIONAL name (xl/worksheets/sheet<k>.xml,
 \*          ppt/slides/slide<k>.xml) numbered by the missing position, in packages whose real
 \*          parts live elsewhere
+\* conf   : OOXML conformance class of the package, consistently: "transitional" (schemas.openxmlformats.org) or
+\*          "strict" (ISO/IEC 29500 Strict: purl.oclc.org namespaces for the main document, DrawingML and r:, and
+\*          purl.oclc.org relationship Types for worksheet / slide / officeDocument / styles / theme ...)
+\* chain "infraMixed": the other relationships (styles, theme, sharedStrings, slideMaster ...) are interleaved with
+\*          the worksheet / slide relationships, officeDocument sits in the middle of /_rels/.rels
 \* xml    : the SPELLING of the declarations (workbook.xml / presentation.xml / container.xml / OPF and the
 \*          relationship parts) - it never changes what is declared:
 \*          rev attributes in reverse order; prefix bound to the relationships namespace; single quotes; foreign: an
@@ -60,14 +65,15 @@ XmlSome == { XmlProf(TRUE, "r", FALSE, FALSE, FALSE, FALSE, "std"),        \* r:
              XmlProf(FALSE, "r", FALSE, TRUE, FALSE, TRUE, "bom"),         \* foreign id LAST, comments between entries, BOM
              XmlProf(TRUE, "ns1", TRUE, TRUE, TRUE, TRUE, "std") }          \* everything, foreign id FIRST
 OProf(pa, tg, de, ex, inf) == [paths |-> pa, tgt |-> tg, decoy |-> de, extras |-> ex, infra |-> inf,
-                               enc |-> "none", opf |-> "root", ver |-> 0, extra |-> FALSE, missing |-> 0, alias |-> "none", chain |-> "one", xml |-> XStd]
+                               enc |-> "none", opf |-> "root", ver |-> 0, extra |-> FALSE, missing |-> 0, alias |-> "none", chain |-> "one", xml |-> XStd, conf |-> "transitional"]
 EProf(pa, en, op, ve, de, xt, ex, inf) == [paths |-> pa, tgt |-> "rel", decoy |-> de, extras |-> ex, infra |-> inf,
-                               enc |-> en, opf |-> op, ver |-> ve, extra |-> xt, missing |-> 0, alias |-> "none", chain |-> "one", xml |-> XStd]
+                               enc |-> en, opf |-> op, ver |-> ve, extra |-> xt, missing |-> 0, alias |-> "none", chain |-> "one", xml |-> XStd, conf |-> "transitional"]
 Miss(pr, m) == [pr EXCEPT !.missing = m]
 Enc(pr, e)  == [pr EXCEPT !.enc = e]
 Alias(pr, a) == [pr EXCEPT !.alias = a]
 ChainOf(pr, c) == [pr EXCEPT !.chain = c]
 Xml(pr, x) == [pr EXCEPT !.xml = x]
+Conf(pr, c) == [pr EXCEPT !.conf = c]
 
 OProfiles == { OProf("std", "rel", "none", TRUE, TRUE),      OProf("std", "abs", "last", FALSE, FALSE),
                OProf("nested", "rel", "first", FALSE, TRUE), OProf("renamed", "rel", "none", TRUE, FALSE),
@@ -86,6 +92,11 @@ OProfiles == { OProf("std", "rel", "none", TRUE, TRUE),      OProf("std", "abs",
                ChainOf(OProf("std", "rel", "last", TRUE, TRUE), "infraFirst"), ChainOf(OProf("renamed", "abs", "none", TRUE, FALSE), "infraFirst") }
              \* the spelling of the declarations (a decoy with a conventional name shows a reader that falls back to discovery)
              \cup { Xml(OProf("std", "rel", "last", FALSE, TRUE), x) : x \in XmlSome }
+             \* conformance class and relationship neighbourhood
+             \cup { Conf(OProf("std", "rel", "last", TRUE, TRUE), "strict"),
+                    Conf(ChainOf(Miss(OProf("renamed", "rel", "conv", TRUE, FALSE), 2), "infraMixed"), "strict"),
+                    Conf(Xml(ChainOf(OProf("nested", "abs", "first", TRUE, FALSE), "infraFirst"), XmlProf(TRUE, "ns1", TRUE, TRUE, TRUE, TRUE, "std")), "strict"),
+                    ChainOf(OProf("std", "rel", "last", TRUE, FALSE), "infraMixed") }
 EProfiles == { EProf("std", "none", "one", 3, "none", FALSE, TRUE, TRUE),
                EProf("std", "sp20", "root", 2, "last", TRUE, FALSE, FALSE),
                EProf("nested", "plusLit", "one", 3, "none", FALSE, FALSE, TRUE),
@@ -130,7 +141,7 @@ EWide(dummy) == { e \in { Alias(Miss(EProf(pa, en, op, ve, de, xt, ex, inf), m),
                      op \in {"root", "one", "two"}, ve \in {2, 3}, de \in {"none", "first", "last"},
                      xt \in BOOLEAN, ex \in BOOLEAN, inf \in BOOLEAN, m \in 0..K } :
              ~(e.paths = "renamed" /\ e.opf = "root") }     \* ../text/ needs a parent directory
-NegO == { OProf("std", "rel", "none", FALSE, TRUE), Miss(OProf("renamed", "rel", "conv", FALSE, TRUE), 2),
+NegO == { OProf("std", "rel", "none", FALSE, TRUE), Conf(OProf("std", "rel", "last", TRUE, TRUE), "strict"), Miss(OProf("renamed", "rel", "conv", FALSE, TRUE), 2),
           Miss(OProf("std", "rel", "last", FALSE, TRUE), 1) }
 NegE == { EProf("std", "plusLit", "one", 3, "none", FALSE, FALSE, TRUE),
           Alias(EProf("std", "pct2520", "one", 3, "none", FALSE, FALSE, TRUE), "decoded"),
@@ -241,14 +252,17 @@ SimPick ==
             \E pa \in R({"std", "nested", "renamed", "dot"}), tg \in R({"rel", "abs"}), de \in R({"none", "first", "last", "conv"}),
                ex \in R(BOOLEAN), inf \in R(BOOLEAN), m \in R(0..K),
                en \in R({"none", "sp20", "plusLit", "pct2520", "eC3A9", "paren", "amp"}), al \in R({"none", "decoded", "query"}),
-               ch \in R({"one", "infraFirst"}), x \in R(XmlSome \cup {XStd}) :
-               Draw(f, Xml(ChainOf(Alias(Enc(Miss(OProf(pa, tg, IF de = "conv" /\ ~(m > 0 /\ pa \in {"nested", "renamed"}) THEN "none" ELSE de,
-                                            ex, inf), m), en), al), ch), x))
+               ch \in R({"one", "infraFirst", "infraMixed"}), x \in R(XmlSome \cup {XStd}), cf \in R({"transitional", "strict"}) :
+               Draw(f, Conf(Xml(ChainOf(Alias(Enc(Miss(OProf(pa, tg, IF de = "conv" /\ ~(m > 0 /\ pa \in {"nested", "renamed"}) THEN "none" ELSE de,
+                                            ex, inf), m), en), al), ch), x), cf))
     /\ UNCHANGED <<pages, pos>>
 SimNext == SimPick \/ (pkg.fmt # "none" /\ Next)
 SimSpec == SimInit /\ [][SimNext]_vars
 
+\* every declared part in declared order, readable or not (what a navigation document lists)
+DeclaredAll(p) == LET q == SetToSortSeq(Declared(p), LAMBDA a, b : a.decl < b.decl) IN [i \in 1..Len(q) |-> q[i].id]
+
 \* one case per package: the terminal state carries the pages the contract yields
 Emit == (pkg.fmt # "none" /\ Done) => PrintT(ToJson([fmt |-> pkg.fmt, base |-> pkg.base, prof |-> pkg.prof, parts |-> pkg.parts, roots |-> pkg.roots,
-                               pages |-> pages, count |-> Len(pages)]))
+                               declared |-> DeclaredAll(pkg), pages |-> pages, count |-> Len(pages)]))
 =============================================================================
